@@ -839,23 +839,34 @@ class Run:
                          'errno': errnos[(k + rot) % len(errnos)]}
                         for k in ks]
                 if sc.get('crash_end'):
-                    # every second fault is followed by a failure of the
+                    # every fault is also run followed by a failure of the
                     # root function (rollback after a caught / absorbed error)
-                    plan = plan + [dict(f, crash_end=True)
-                                   for f in plan[::2]]
+                    plan = plan + [dict(f, crash_end=True) for f in plan]
                 if sc.get('torn'):
                     plan.append({'kind': 'torn', 'frac': 0.5})
                     plan.append({'kind': 'torn', 'frac': 0.0})
         elif isinstance(plan, dict):
             plan = [plan]
         self.fault_runs = 0
+        want = self.opts.get('prop')
+        deferred = None
         for f in plan:
             self.load_state(s0)
             self.records = dict(rec0)
             self.current_fault = f
             self.fault_not_fired = False
             self.fault_runs += 1
-            self.step(i, dict(steps[i], fault=f))
+            try:
+                self.step(i, dict(steps[i], fault=f))
+            except Violation as v:
+                if want is None or want in v.props:
+                    raise
+                # a violation of another property: remember the first one and
+                # go on with the sweep - the property under check may be
+                # violated by a later fault of the plan
+                if deferred is None:
+                    deferred = (v, f)
+                continue
             if self.fault_not_fired:
                 continue
             out = self.last_outcome
@@ -872,6 +883,9 @@ class Run:
                         ['C02' if f['kind'] == 'crash' else 'C14'],
                         'O-twin', 'twin-differs',
                         {'fault': f, 'baseline': base, 'twin': twin}, i)
+        if deferred is not None:
+            self.current_fault = deferred[1]
+            raise deferred[0]
         self.current_fault = None
 
     def play(self, i, cont):
